@@ -19,7 +19,7 @@ import (
 
 // ---------------------------------------------------------------- generators shared by C05/C06/C10
 
-var vfNameShapes = []string{"plain", "long", "max", "stack", "ditto", "nul", "binary", "dots", "one", "truncated", "nl-end", "nl-mid", "ditto-first", "ditto-name", "stack-nodots"}
+var vfNameShapes = []string{"plain", "long", "max", "stack", "ditto", "nul", "binary", "dots", "one", "truncated", "nl-end", "nl-mid", "ditto-first", "ditto-name", "stack-nodots", "deep-ditto"}
 
 // vfGenName returns a counter name of the given shape, unique through uniq.
 func vfGenName(r *verifrt.Rand, shape string, uniq int) string {
@@ -62,6 +62,16 @@ func vfGenName(r *verifrt.Rand, shape string, uniq int) string {
 		return u + "\n\".f:+1\n\".g:+2"
 	case "stack-nodots":
 		return u + "\nmain\nnodots\n\"`"
+	case "deep-ditto":
+		// a deep recursion: every frame but the first abbreviates a long import
+		// path, so the stored name is well below the limit while its expansion
+		// is several times as long
+		var sb strings.Builder
+		sb.WriteString("deep/" + u + "\nexample.com/some/rather/long/import/path/of/a/package/in/a/module.recurse:+1,+0x10")
+		for k, n := 0, 40+r.Intn(80); k < n; k++ {
+			fmt.Fprintf(&sb, "\n\".recurse:+%d,+0x%x", k%7, 0x20+k)
+		}
+		return sb.String()
 	}
 	return u
 }
@@ -441,6 +451,31 @@ func TestVerifC06(t *testing.T) {
 					copy(data, verifref.Prefix)
 				}
 				class = "random"
+			case kind == 3 && i%400 == 3:
+				// images of 8-12 MiB whose bucket heads / next links lie in the last
+				// bytes of the 32-bit range: offset arithmetic done in 32 bits wraps
+				// round into the file
+				base, _, _ := vfGenValidFile(rnd, 8)
+				cf, err := verifref.ParseCounterFile(base)
+				if err != nil || len(cf.Records) == 0 {
+					continue
+				}
+				data = make([]byte, (8+rnd.Intn(5))<<20)
+				copy(data, base)
+				off := uint32(0xffffffff) - uint32(rnd.Intn(64))
+				if rnd.Bool() {
+					off &^= 7
+				}
+				tgt := cf.HdrLen + 4 + 4*uint32(rnd.Intn(verifref.NumHash)) // a bucket head
+				if rnd.Bool() {
+					tgt = cf.Records[rnd.Intn(len(cf.Records))].Off + 12 // a record's next link
+				}
+				binary.LittleEndian.PutUint32(data[tgt:], off)
+				if rnd.Bool() {
+					// (and an allocation limit that claims the whole range)
+					binary.LittleEndian.PutUint32(data[cf.HdrLen:], 0xffffffe0)
+				}
+				class = "huge-image-link-near-2^32"
 			case kind == 1 || kind == 2: // well-formed
 				wellFormed = true
 				if kind == 1 && i%97 == 5 {
@@ -574,7 +609,7 @@ func TestVerifC06(t *testing.T) {
 			}
 		}
 	})
-	res.Require("readfile-compared", "random", "wellformed-ref", "wellformed-lib", "wellformed-long-chain", "damage:cycle-2", "damage:next-self-stack", "damage:hdrlen-small", "accepted", "rejected", "ref-accepts")
+	res.Require("readfile-compared", "random", "wellformed-ref", "wellformed-lib", "wellformed-long-chain", "huge-image-link-near-2^32", "damage:cycle-2", "damage:next-self-stack", "damage:hdrlen-small", "accepted", "rejected", "ref-accepts")
 	if err := res.Write(); err != nil {
 		t.Fatal(err)
 	}
